@@ -43,7 +43,7 @@ ENGINES = {
 POOLSIM_ESSENTIAL = {
     "C01": ["C01.home-ready-cur", "C01.home-ready:after-refresh", "C01.home-down-wait", "C01.bind", "C01.unbind",
             "C01.rebind-ignored", "C01.failed-bind-unbind", "C01.macro-rebind-complete"],
-    "C02": ["C02.least-loaded-multi", "C02.at-max", "C02.count", "C02.quiescent-zero", "C02.empty-snap"],
+    "C02": ["C02.least-loaded-multi", "C02.at-max", "C02.count", "C02.quiescent-zero", "C02.empty-snap", "C02.empty-reply-key"],
     "C03": ["C03.initial", "C03.growth-attempt", "C03.growth-blocked-by-connecting", "C03.max", "C02.at-max", "C03.filled-to-high-watermark"],
     "C04": ["C04.aggregate", "C04.publish", "C04.publish-tf-boundary", "C04.ignored-report", "C04.tf-picker"],
     "C05": ["C05.hostile-case", "C05.malformed-handled"],
